@@ -112,6 +112,29 @@ def determinism_checks(pid, wire, mod, res, label):
     for rel in sorted(base):
         sh([wire, 'gen', './' + os.path.dirname(rel)], alone_root)
     alone = snapshot_gen(alone_root)
+    # with -header_file (one header shared by all packages of an invocation): the eight packages with the smallest
+    # output, generated together and each alone, must give the same bytes, namely header + the headerless file
+    small = sorted(base, key=lambda r: (len(base[r]), r))[:8]
+    hdr_bad = []
+    if small:
+        hf = os.path.join(alone_root, 'hdr.txt')
+        open(hf, 'w').write('// Short header.\n\n')
+        for rel in small:
+            os.remove(os.path.join(alone_root, rel))
+        sh([wire, 'gen', '-header_file', hf] + ['./' + os.path.dirname(r) for r in small], alone_root)
+        together_h = snapshot_gen(alone_root)
+        for rel in small:
+            if os.path.exists(os.path.join(alone_root, rel)):
+                os.remove(os.path.join(alone_root, rel))
+            sh([wire, 'gen', '-header_file', hf, './' + os.path.dirname(rel)], alone_root)
+        alone_h = snapshot_gen(alone_root)
+        for rel in small:
+            want = b'// Short header.\n\n' + base[rel]
+            if together_h.get(rel) != alone_h.get(rel) or alone_h.get(rel) != want:
+                hdr_bad.append(rel)
+                res['confirmed'].append(dict(cls='C16,C17:with a header file the output depends on the other packages of the invocation', props=['C16', 'C17'],
+                                             msg='wire gen -header_file for %d packages together / for %s alone / header + headerless output differ for %s' % (len(small), os.path.dirname(rel), rel),
+                                             artifact_dir=os.path.join(mod, os.path.dirname(rel)), model=None, harness=label))
     shutil.rmtree(os.path.join(workdir(pid), 'alone'), ignore_errors=True)
     alone_equal = 0
     for rel, data in base.items():
@@ -140,7 +163,7 @@ def determinism_checks(pid, wire, mod, res, label):
     sh([wire, 'gen', './...'], gsrc, env=genv)
     vendored = snapshot_gen(gsrc)
     shutil.rmtree(gp, ignore_errors=True)
-    res['extra']['determinism'] = dict(files=len(base), repeat_equal=0, moved_equal=0, gopath_vendor_equal=0, alone_equal=alone_equal)
+    res['extra']['determinism'] = dict(files=len(base), repeat_equal=0, moved_equal=0, gopath_vendor_equal=0, alone_equal=alone_equal, header_checked=len(small), header_equal=len(small) - len(hdr_bad))
     for rel, data in base.items():
         if rel.startswith('_'):
             continue
@@ -230,6 +253,15 @@ def run_sideb(pid, specs, props_filter=None, label='sideB', determinism=False):
                 continue
             lines = [l for l in err.splitlines() if l.startswith(pk + '/')][:4]
             props = list(getattr(sp, 'compile_props', ['C01'])) + (['C14'] if sp.naming == 'adversarial' else [])
+            # a program built around struct / field providers, bindings or values that does not compile is also
+            # a failure of the property describing what those items provide
+            kinds = {n.kind for n in getattr(sp, 'nodes', [])}
+            if kinds & {C.WSTRUCT, C.FIELD}:
+                props += ['C12', 'C02']
+            if C.BIND in kinds:
+                props += ['C11']
+            if kinds & {C.VALUE, C.IVALUE}:
+                props += ['C13']
             props = sorted(set(props))
             res['confirmed'].append(dict(cls='%s:generated package does not compile' % ','.join(props), props=props,
                                          msg='package with generated wire_gen.go does not compile (%s): %s' % (sp.label, ' | '.join(lines)),
